@@ -37,7 +37,7 @@ type wtCase struct {
 	SeedInfo string  `json:"seed"`
 }
 
-var wtAPIs = []string{"message", "writer", "string", "readfrom", "prepared"}
+var wtAPIs = []string{"message", "writer", "string", "readfrom", "readfrom-eof", "prepared"}
 
 func wtLengths(rng *rand.Rand, wbuf int, big bool) int {
 	b := wbuf + 9 // internal buffer = requested + max header
@@ -141,7 +141,7 @@ func genWTCase(rng *rand.Rand, big bool) wtCase {
 			m.Len = rng.IntN(300)
 		}
 		m.data = fillPayload(rng, m.Len, !m.Binary)
-		if m.API == "writer" || m.API == "readfrom" {
+		if m.API == "writer" || m.API == "readfrom" || m.API == "readfrom-eof" {
 			m.Chunks = chunking(rng, m.Len)
 		}
 		c.Msgs = append(c.Msgs, m)
@@ -170,13 +170,22 @@ func lenClass(n, wbuf int) string {
 type chunkReader struct {
 	data   []byte
 	chunks []int
+	// eofWithData: the last chunk is returned together with io.EOF (as io.Reader allows)
+	eofWithData bool
 }
 
-func (r *chunkReader) Read(p []byte) (int, error) {
+func (r *chunkReader) Read(p []byte) (n int, err error) {
+	if r.eofWithData {
+		defer func() {
+			if err == nil && len(r.data) == 0 {
+				err = io.EOF
+			}
+		}()
+	}
 	if len(r.data) == 0 {
 		return 0, io.EOF
 	}
-	n := len(r.data)
+	n = len(r.data)
 	if len(r.chunks) > 0 {
 		n = r.chunks[0]
 		r.chunks = r.chunks[1:]
@@ -233,8 +242,8 @@ func writeWT(c *webtrans.Conn, m wtMsg) error {
 		if _, err := io.WriteString(w, string(m.data)); err != nil {
 			return err
 		}
-	case "readfrom":
-		if _, err := io.Copy(w, &chunkReader{data: m.data, chunks: append([]int(nil), m.Chunks...)}); err != nil {
+	case "readfrom", "readfrom-eof":
+		if _, err := io.Copy(w, &chunkReader{data: m.data, chunks: append([]int(nil), m.Chunks...), eofWithData: m.API == "readfrom-eof"}); err != nil {
 			return err
 		}
 	}
